@@ -835,7 +835,8 @@ JANET_CORE_FN(cfun_stream_accept_loop,
     JanetStream *stream = janet_getabstract(argv, 0, &janet_stream_type);
     janet_stream_flags(stream, JANET_STREAM_ACCEPTABLE | JANET_STREAM_SOCKET);
     JanetFunction *fun = janet_getfunction(argv, 1);
-    if (fun->def->min_arity < 1) janet_panic("handler function must take at least 1 argument");
+    /* The handler is called with the new connection as its only argument */
+    if (fun->def->min_arity > 1 || fun->def->max_arity < 1) janet_panic("handler function must accept 1 argument");
     janet_sched_accept(stream, fun);
 }
 
